@@ -11,7 +11,15 @@ use std::sync::{Arc, Condvar, Mutex};
 use std::thread::{self, ThreadId};
 use std::time::{Duration, Instant};
 
-const GRAMMAR: &str = "a = { \"x\" }\nb = { \"y\" }\ntop = _{ a ~ b ~ a ~ b? }\n";
+// `top` is a NORMAL rule on purpose: an abandoned parse that an optional absorbs has to unwind through the
+// token bookkeeping of an enclosing rule (the silent variant `top = _{ .. }` is run as well, see c17.py)
+const GRAMMAR_DEFAULT: &str = "a = { \"x\" }\nb = { \"y\" }\ntop = { a ~ b ~ a ~ b? }\n";
+
+/// The grammar of the replayed parse (start rule `top`); VDBG_GRAMMAR replaces the default.
+fn grammar() -> &'static str {
+    static G: std::sync::OnceLock<String> = std::sync::OnceLock::new();
+    G.get_or_init(|| std::env::var("VDBG_GRAMMAR").unwrap_or_else(|_| GRAMMAR_DEFAULT.to_string()))
+}
 
 #[derive(Default)]
 struct State {
@@ -102,7 +110,7 @@ enum Reply {
 
 fn controller(cap: usize, input: String, cmds: Receiver<Cmd>, replies: Sender<Reply>) {
     let mut ctx = DebuggerContext::default();
-    ctx.load_grammar_direct("g", GRAMMAR).expect("grammar");
+    ctx.load_grammar_direct("g", grammar()).expect("grammar");
     ctx.load_input_direct(input);
     for c in cmds {
         let r = match c {
@@ -136,7 +144,7 @@ fn controller(cap: usize, input: String, cmds: Receiver<Cmd>, replies: Sender<Re
 
 /// The rule entries of the plain parse (recording listener on the real VM).
 fn entries(input: &str) -> (Vec<(String, usize)>, String) {
-    let (_, rules) = pest_meta::parse_and_optimize(GRAMMAR).expect("grammar");
+    let (_, rules) = pest_meta::parse_and_optimize(grammar()).expect("grammar");
     let log: Arc<Mutex<Vec<(String, usize)>>> = Arc::new(Mutex::new(vec![]));
     let l2 = Arc::clone(&log);
     let vm = pest_vm::Vm::new_with_listener(
@@ -368,7 +376,7 @@ fn main() {
         Some("entries") => {
             let (e, fin) = entries(&input);
             println!("{}", json!({"entries": e.iter().map(|x| x.0.clone()).collect::<Vec<_>>(),
-                                  "positions": e.iter().map(|x| x.1).collect::<Vec<_>>(), "final": fin, "grammar": GRAMMAR, "input": input}));
+                                  "positions": e.iter().map(|x| x.1).collect::<Vec<_>>(), "final": fin, "grammar": grammar(), "input": input}));
         }
         Some("replay-one") => {
             // one behaviour per process: parser threads of abandoned runs stay parked for ever and must not
